@@ -275,3 +275,21 @@ def kv_digest(kv):
 def short(obj, n=200):
     s = repr(obj)
     return s if len(s) <= n else s[: n - 3] + "..."
+
+
+def container(seq, how):
+    """the same numbers in another legal argument form: list / tuple / numpy array (object dtype for exact numbers) /
+    a one-shot generator"""
+    seq = list(seq)
+    if how == "tuple":
+        return tuple(seq)
+    if how == "array":
+        if any(isinstance(x, F) for x in seq) or not seq:
+            arr = np.empty(len(seq), dtype=object)
+            for i, x in enumerate(seq):
+                arr[i] = x
+            return arr
+        return np.array(seq)
+    if how == "generator":
+        return (x for x in seq)
+    return seq
